@@ -56,6 +56,9 @@ impl Prop for C13 {
     fn run(&self, dom: usize, idx: u64, cx: &mut Cx) {
         run_returned("C13", &self.sets[dom], idx, cx, &gen);
     }
+    fn abort_is_violation(&self) -> bool {
+        true
+    }
     fn rule(&self) -> String {
         "sweep: every title with at least one word x store contexts (|store| <= limit) x {the title text itself; for titles of >= 2 words the original spelling of (first word, last word) joined by a space, in both orders}. Non-trivial = title with at least two words.".into()
     }
